@@ -263,6 +263,14 @@ def evaluate(c):
                     ev += 1
                     chk('ZIN-SHIFT-%s-%s' % (kindp, name if name in ('zero', 'rlc-zero') else 'load'), abs((z1 - z0) - zl) / abs(z0), 1e-8,
                         'load set %s (%s form) on the %s feed pulse %d raises Z_in by %s instead of %s' % (name, at, kindp, p + 1, z1 - z0, zl))
+                    if at == 'abs' and name in ('one', 'three'):
+                        # the loads are added exactly once also when the same object is solved again (other source voltage)
+                        m1.sources[0].voltage = 2 - 1j
+                        m1.compute()
+                        z2 = m1.sources[0].impedance
+                        ev += 1
+                        chk('ZIN-SHIFT-resolve', abs((z2 - z0) - zl) / abs(z0), 1e-8,
+                            'load set %s on feed pulse %d: after a second compute() on the same object Z_in is raised by %s instead of %s' % (name, p + 1, z2 - z0, zl))
             canon.append('sys|%s|%s|feed%d' % (c['env'], und, p))
             nontriv.append(kindp != 'interior')
         # neutral distributed loads and conductivity/resistivity, whole-object / whole-antenna attachment
